@@ -5,6 +5,9 @@ props = [json.loads(l) for l in open('/verif/properties.jsonl')]
 ids = [p['id'] for p in props]
 
 CHECKS = {
+ "C20": dict(category="exploration", technique="runtime monitor: crash hook over hover/completion queries at hostile positions + reference-model agreement (annotated types, declared member sets, insert-and-typecheck oracle)",
+   text="Part A drives hover, dot and :: completion at token boundaries, after every '.'/'::', past line ends, past EOF and at u32::MAX over corpus files, editor-like prefixes and 1-3-edit mutations under the panic hook. Part B builds templated programs whose types and member sets are known by construction and asserts: hover on an annotated binder / its alias / its use reports the annotated type; every offered completion is a declared member with the typed prefix; inserting an offered field, self-only method or nullary variant type-checks (real typer as oracle).",
+   design_ref="DESIGN.md 4/C20", note="hover agreement covers let binders, aliases and variable uses of 33 type shapes (not arbitrary sub-expressions); completeness of completions is observed, not required"),
  "C04": dict(category="exploration", technique="runtime crash/hang/diagnostic monitor: every entry point run in budgeted worker processes under a panic hook, CPU/RSS watchdog with gdb stack attribution, diagnostic-range assertions",
    text="Corpus files, targeted well-formed shapes aimed at post-parser panic sites, bounded deep nesting, and seeded token/line/char mutations, splices and token soups (9k quick, 3M thorough) are driven through compile (+Go printing and all stage dumps) and typecheck_with_packages; a monitor records panics (site = file::function), aborts, stack overflows, CPU/memory blow-ups (attributed to a compiler pass by sampling the stack with gdb), Err results without error diagnostics and diagnostic ranges outside the text. Held on what was explored; known findings are pinned by witness and signature.",
    design_ref="DESIGN.md 4/C04", note="termination is the bounded form (10 CPU-s, 3 GiB per input <= 64 KiB); nesting depth <= 64 on an 8 MiB stack; CLI subprocess and artifact-file entry points are covered by C15's fault enumeration"),
